@@ -716,7 +716,7 @@ def run(chk):
     if not ok:
         handle_broken(chk)
 
-    n_hist = 2500 if quick else 40000
+    n_hist = 1200 if quick else 30000
     max_len = 15 if quick else 40
     cases = []
     for is_map, (k0, hk, m), ops in CORPUS:
